@@ -115,6 +115,10 @@ def run_api(case):
     with core.scratch("c08") as d:
         spec, meta = build_api(case, d, case["seed"])
         spec.update(dest=str(d / "out"), workers=case["workers"])
+        # several tasks per Parallel call in every run of the group (same configuration: only the session varies)
+        spec["chunk_sizes"] = {"CHUNK_SIZE_READ_ALL_DATA": 97, "CONFIDENCE_CHUNK_SIZE": 131}
+        if case["workers"] > 1:
+            spec["perturb"] = 1000 + case["workers"] + len(case["hashseed"])  # perturbed task schedule
         out = pipeline_main.run(spec)
         res.count("pipeline_runs")
         res["meta"] = meta
@@ -125,7 +129,9 @@ def run_api(case):
             else:
                 res["status"] = "refused"
             return res
-        res["obs"] = dict(status="ok", digest=digest_of(out), threads=out.get("threads"), file_rows=out.get("file_rows"))
+        res["obs"] = dict(status="ok", digest=digest_of(out), threads=out.get("sched_threads"), file_rows=out.get("file_rows"))
+        res.count("threads_seen", out.get("sched_threads") or 0)
+        res.count("task_kinds_finished_out_of_order", out.get("sched_out_of_order_kinds") or 0)
         if case.get("repeat"):
             # the repeat does not touch numpy's global generator again: the seed handed to the API must suffice
             spec2 = dict(spec, dest=str(d / "out2"), no_np_seed=True)
